@@ -180,6 +180,10 @@ def gen_lens_cfg(rng, ltype, sharp=True, with_scaling=None, with_los=None, prior
         for nm in rng.sample(["lambda_mst", "gamma_ppn", "a_ani", "gamma_pl", "gamma_in", "log_m2l", "beta_inf", "h0", "foo"], rng.choice([1, 2, 3])):
             pl.append([nm, rng.uniform(0.5, 2.5), rng.uniform(0.05, 0.5)])
         cfg["prior_list"] = pl
+    if rng.random() < 0.35:
+        # the sampler-side switch "scatter parameters are sampled in log10-space" is handed down to every lens through the
+        # global model settings; the dictionaries a lens receives are always LINEAR (ParamManager.args2kwargs converts)
+        cfg["log_scatter"] = True
     return cfg, dict(kwargs_lens=kwargs_lens, kwargs_kin=kwargs_kin, kwargs_source=kwargs_source, kwargs_los=kwargs_los)
 
 
@@ -242,8 +246,10 @@ class Recorder:
         orig_single = lens.log_likelihood_single
 
         def kin(kwargs_param):
+            # (the realised parameters as they are handed IN: copied before the call)
+            handed = dict(kwargs_param) if kwargs_param is not None else None
             r = orig_kin(kwargs_param)
-            rec.kin.append((dict(kwargs_param) if kwargs_param is not None else None, np.atleast_1d(np.array(r, dtype=float)).tolist()))
+            rec.kin.append((handed, np.atleast_1d(np.array(r, dtype=float)).tolist()))
             return r
 
         def data(*a, **k):
